@@ -136,7 +136,7 @@ impl<'a> Dec<'a> {
                 text.push_str(&s);
             }
         }
-        n.prop("overview", &text.replace("\r\n", "\n"));
+        n.prop("overview", &text);
         n.prop("links", &links.join(" "));
         let see = self.seq(|d| d.string())?;
         n.prop("see", &see.join(" "));
